@@ -29,7 +29,9 @@ impl TlsBuilder {
             && c.no_built_in_roots == self.no_built_in_roots && c.no_sni == self.no_sni && !c.custom { unimplemented!() }
 }
 pub struct StdTcp { pub id: int }
-impl StdTcp { #[verifier::external_body] pub fn set_nonblocking(&self, b: bool) -> (r: Result<()>) { unimplemented!() } }
+// the mode the descriptor is in when it is handed to tokio (prophecy-style attribute fixed by set_nonblocking)
+pub uninterp spec fn nonblocking_tcp(s: StdTcp) -> bool;
+impl StdTcp { #[verifier::external_body] pub fn set_nonblocking(&self, b: bool) -> (r: Result<()>) ensures r is Ok ==> nonblocking_tcp(*self) == b { unimplemented!() } }
 pub enum StdStream { Tcp(StdTcp), Unix(u8), Invalid }
 pub struct LdapConnSettings { pub conn_timeout: Option<Duration>, pub connector: Option<TlsConnector>, pub starttls: bool, pub no_tls_verify: bool, pub std_stream: Option<StdStream> }
 pub struct Duration { pub d: u64 }
@@ -72,7 +74,10 @@ pub struct TcpConnFut { pub addr: Ghost<Seq<char>> }
 impl TcpConnFut { #[verifier::external_body] pub fn verif_await(self) -> (r: Result<TcpStream>) ensures r matches Ok(t) ==> t.peer == self.addr@ && !t.pre_opened { unimplemented!() } }
 impl TcpStream {
     #[verifier::external_body] pub fn connect(a: &str) -> (f: TcpConnFut) ensures f.addr@ == a@ { unimplemented!() }
-    #[verifier::external_body] pub fn from_std(s: StdTcp) -> (r: Result<TcpStream>) ensures r matches Ok(t) ==> t.id == s.id && t.pre_opened { unimplemented!() }
+    // tokio: "The caller is responsible for ensuring that the stream is in non-blocking mode"
+    #[verifier::external_body] pub fn from_std(s: StdTcp) -> (r: Result<TcpStream>)
+        requires nonblocking_tcp(s), //# C04+C18.a_pre_opened_stream_is_switched_to_non_blocking_mode_before_tokio_gets_it
+        ensures r matches Ok(t) ==> t.id == s.id && t.pre_opened { unimplemented!() }
 }
 // url::Url: what new_tcp reads
 pub struct Url { pub g: u8 }
